@@ -412,7 +412,10 @@ def _decode_parsed(
             if unit in ("v", "a", "var", "varh"):
                 value = float(item.values[0].value)
             elif unit in ("kw", "kwh", "kvar", "kvarh"):
-                value = int(float(item.values[0].value) * 1000)
+                try:
+                    value = int(float(item.values[0].value) * 1000)
+                except OverflowError as ex:
+                    raise ValueError("Value is out of range.") from ex
             else:
                 if obis.to_group_cdr_str() == "1.0.0":
                     value = _parse_p1_datetime(item.values[0].value)
